@@ -16,14 +16,14 @@ def raw_callee(ctx, method, default):
     return local[0] if len(local) == 1 else default
 
 
-def _traversal(ctx, se, dparam=1):
+def _traversal(ctx, se, dparam=1, only=None):
     """how the data slice (param 1) is walked: returns dict(mode, head, loop (blocks), in_term
     (the byte before the step), out_terms, writes) or (None, reason).  Modes: `for b in data`
     (slice IterMut), `for i in 0..data.len()`, and `while let Some((b, tail)) =
     mem::take(&mut rest).split_first_mut()` - each visits every element once, in order."""
     body = se.body
     data_root = ("deref", ("param", dparam))
-    loops = util.for_loops(ctx, se)
+    loops = util.for_loops(ctx, se) if only is None else [only]
     be = cfg.back_edges(body)
     if len(loops) == 1:
         lp = loops[0]
@@ -39,7 +39,13 @@ def _traversal(ctx, se, dparam=1):
             elem_in = ("deref", lp["elem"])
             writes = [(k, v) for k, v in se.assigns.items() if v[0] == elem_in or (v[0][0] == "deref" and strip(v[0][1]) == strip(lp["elem"]))]
             return {"mode": "iter", "head": head, "loop": loop, "in_term": strip(elem_in), "out_terms": [w[1][1] for w in writes], "writes": writes, "what": lp["resolved"]}
-        if src is not None and util.is_call(src, "core::slice::<impl [T]>::iter_mut") and "slice::IterMut" in (lp["resolved"] or "") and se.call_old.get((src[3][:2], 0)) == data_root:
+        def over_data(call_):
+            """iter_mut() taken on the data parameter's slice (whatever an earlier pass left in it)"""
+            if se.call_old.get((call_[3][:2], 0)) == data_root:
+                return True
+            la_ = (se.term_info.get(call_[3][1], {}).get("locargs") or (("?",),))[0]
+            return only is not None and la_[0] == "ref" and la_[1] == data_root
+        if src is not None and util.is_call(src, "core::slice::<impl [T]>::iter_mut") and "slice::IterMut" in (lp["resolved"] or "") and over_data(src):
             # `for b in data.iter_mut()`: the same walk, spelled with the explicit adaptor
             elem_in = ("deref", lp["elem"])
             writes = [(k, v) for k, v in se.assigns.items() if v[0] == elem_in or (v[0][0] == "deref" and strip(v[0][1]) == strip(lp["elem"]))]
@@ -65,6 +71,9 @@ def _traversal(ctx, se, dparam=1):
             if util.is_call(a_, "core::slice::<impl [T]>::iter_mut"):
                 old = se.call_old.get((a_[3][:2], 0))
                 over_data = old == data_root
+                if not over_data and only is not None:
+                    la_ = (se.term_info.get(a_[3][1], {}).get("locargs") or (("?",),))[0]
+                    over_data = la_[0] == "ref" and la_[1] == data_root
             ks = None
             if util.is_call(b_, "std::iter::Iterator::skip") and util.is_call(strip(b_[2][0]), "std::iter::Iterator::cycle"):
                 it = strip(strip(b_[2][0])[2][0])
@@ -149,6 +158,8 @@ def step_rule(ctx, rep, fn, direction, keylen, method_of=None):
     if method_of is not None:
         return _step_rule_method(ctx, rep, fn, direction, keylen, se, method_of)
     if not util.for_loops(ctx, se) and not cfg.back_edges(body) and _step_rule_fold(ctx, rep, fn, direction, keylen, se):
+        return
+    if len(util.for_loops(ctx, se)) == 2 and _step_rule_two_pass(ctx, rep, fn, direction, keylen, se):
         return
     tr = _traversal(ctx, se)
     if isinstance(tr, tuple):
@@ -243,6 +254,114 @@ def step_rule(ctx, rep, fn, direction, keylen, method_of=None):
     idom = cfg.dominators(body)
     be = [e for e in cfg.back_edges(body) if e[1] == head or cfg.dominates(idom, head, e[0])]
     rep.check(bool(be) and all(cfg.dominates(idom, wb, t) for t, h in be), "step", fn, "unconditional", "the step is executed for every byte", "the byte/state update is conditional inside the loop", body.loc(wb))
+
+
+def _step_rule_two_pass(ctx, rep, fn, direction, keylen, se):
+    """The cipher as two plain passes over the whole slice.  Encrypt: (A) `d[n] ^= key[(idx + n) mod K]`
+    then (B) the running sum `d[n] = d[n] + prev; prev = d[n]`; decrypt: (B') the adjacent
+    difference `d[n] = c[n] - prev; prev = c[n]` then (A).  Substituting what the first pass leaves
+    in d[n] into the second gives the one-pass recurrence `out = (in ^ k) + prev` /
+    `out = (in - prev) ^ k`, byte by byte and in order, because pass A touches no state and pass
+    B / B' reads only d[n] and its own carried value.  Returns False (nothing reported) when the
+    function is not two such loops one after the other."""
+    body = se.body
+    loops = util.for_loops(ctx, se)
+    trs = []
+    for lp in loops:
+        tr = _traversal(ctx, se, 1, only=lp)
+        if isinstance(tr, tuple):
+            return False
+        trs.append(tr)
+    ks = [t for t in trs if t["mode"] == "zip-keystream"]
+    pl = [t for t in trs if t["mode"] == "iter"]
+    if len(ks) != 1 or len(pl) != 1:
+        return False
+    A, B = ks[0], pl[0]
+    if A["loop"] & B["loop"]:
+        return False
+    a_first = cfg.must_pass_block(body, A["head"], B["head"])
+    b_first = cfg.must_pass_block(body, B["head"], A["head"])
+    if a_first == b_first:
+        return False
+    want_a_first = direction == "enc"
+    idx_root = ("deref", ("param", 3))
+    prev_root = ("deref", ("param", 4))
+    rep.ok("traversal", fn, "in-order-whole-slice", "two plain in-order passes over the whole slice (key-stream xor pass, chaining pass), every element once in each", body.loc(A["head"]))
+    kty = body.local_ty(2).peel_refs()
+    klen = kty.len if kty.k == "array" else None
+    rep.check(klen == keylen, "step", fn, "key-length", "key is [u8; %s]" % klen, "key array has length %s, expected %d" % (klen, keylen), body.loc())
+    # ---- pass A: d[n] ^= kb, nothing carried
+    okA = len(A["out_terms"]) == 1 and A["key_source"] == ("param", 2) and arith.norm(A["key_skip"], {strip(idx_root): "idx0"}) == S("idx0")
+    outA = arith.norm(A["out_terms"][0], {A["in_term"]: "in", A["key_byte"]: "kb"}) if okA else ("?",)
+    okA = okA and outA == xor(S("in"), S("kb"))
+    carriedA = [k_ for (bb_, k_), ins in se.phi_inputs.items() if bb_ == A["head"] and k_[0] == "deref" and k_ in (idx_root, prev_root)]
+    okA = okA and not carriedA
+    # ---- pass B: one carried byte started from *previous_value
+    carried = []
+    for (bb_, k_), ins in se.phi_inputs.items():
+        if bb_ != B["head"]:
+            continue
+        init = [v for p_, v in ins.items() if p_ not in B["loop"]]
+        back = [v for p_, v in ins.items() if p_ in B["loop"]]
+        if len(init) == 1 and len(back) == 1 and strip(init[0]) in (strip(prev_root), prev_root):
+            carried.append((("phi", se.fn, bb_, k_, ()), back[0]))
+    okB = len(carried) == 1 and len(B["out_terms"]) == 1
+    outB = nprev = ("?",)
+    if okB:
+        phi_prev, back_prev = carried[0]
+        envB = {strip(phi_prev): "prev", B["in_term"]: "in"}
+        outB = arith.norm(B["out_terms"][0], envB)
+        nprev = arith.norm(back_prev, envB)
+    if direction == "enc":
+        wantB, want_prev = wadd(S("in"), S("prev")), wadd(S("in"), S("prev"))
+        composed = "out = (in ^ key[(idx + n) mod %d]) +8 prev; prev' = out" % keylen
+    else:
+        wantB, want_prev = ("wsub", S("in"), S("prev")), S("in")
+        composed = "out = (in -8 prev) ^ key[(idx + n) mod %d]; prev' = in" % keylen
+    order_ok = (a_first if want_a_first else b_first)
+    rep.check(okA and okB and outB == wantB and order_ok, "step", fn, "output-byte", composed + " (the two passes composed)", "the two passes do not compose to the cipher step: xor pass %s, chaining pass %s, order %s" % (arith.show(outA) if outA != ("?",) else "?", arith.show(outB) if outB != ("?",) else "?", "xor first" if a_first else "chaining first"), body.loc(A["head"]))
+    rep.check(okB and nprev == want_prev, "step", fn, "previous-update", "prev' = %s" % arith.show(nprev) if nprev != ("?",) else "prev'", "previous-value update is %s, expected %s" % (arith.show(nprev) if nprev != ("?",) else "?", arith.show(want_prev)), body.loc(B["head"]))
+    # ---- index: written once from the call's length, as in the key-stream form
+    eff = se.param_effects()
+    e3 = eff.get(3)
+    good_idx = False
+    n3 = ("?",)
+    if e3 is not None:
+        r3 = util.numnorm(e3)
+        idx0 = strip(idx_root)
+
+        def is_len_data(x):
+            if x[0] != "len":
+                return False
+            y = strip(x[1])
+            while y[0] in ("after", "phi") and y[0] == "after":
+                y = strip(y[3])
+            return y == ("param", 1) or (y[0] == "phi")
+
+        def widened(x):
+            return x == ("cast", "IntToInt", idx0, "usize") or (util.is_call(x) and x[1].endswith("From<u8> for usize>::from") and strip(x[2][0]) == idx0)
+        if r3[0] == "cast" and r3[1] == "IntToInt" and r3[3] == "u8" and r3[2][0] == "binop" and r3[2][1] == "Rem":
+            m_ = r3[2][3]
+            if util.is_call(m_) and "From<u8> for usize" in m_[1]:
+                m_ = util.numnorm(m_[2][0])
+            add = r3[2][2]
+            if add[0] == "field" and add[2] == 0 and add[1][0] == "binop" and add[1][1] == "AddWithOverflow":
+                add = ("binop", "Add", add[1][2], add[1][3])
+            if m_[:2] == ("int", keylen) and add[0] == "binop" and add[1] == "Add":
+                good_idx = (widened(add[2]) and is_len_data(add[3])) or (widened(add[3]) and is_len_data(add[2]))
+        n3 = arith.norm(e3, {idx0: "idx0"}, wide=())
+    rep.check(good_idx, "step", fn, "index-update", "idx' = ((idx as usize + data.len()) %% %d) as u8, stored once" % keylen, "index update is %s, expected ((idx as usize + len(data)) mod %d) truncated last" % (arith.show(n3)[:160] if n3 != ("?",) else "missing", keylen), body.loc())
+    e4 = eff.get(4)
+    ok_state = okB and e4 is not None and strip(e4) == strip(carried[0][0]) and set(eff) <= {1, 3, 4}
+    rep.check(ok_state, "state-discipline", fn, "only-the-step-writes", "previous value = the carried byte of the chaining pass, stored back once; index written once from the call's length", "index / previous value are also written elsewhere: %s" % {k_: show(v_, maxdepth=2) for k_, v_ in eff.items()}, body.loc())
+    idom = cfg.dominators(body)
+    unc = True
+    for T in (A, B):
+        wb = T["writes"][0][0][0] if T["writes"] else None
+        be_ = [e for e in cfg.back_edges(body) if e[1] == T["head"]]
+        unc = unc and wb is not None and bool(be_) and all(cfg.dominates(idom, wb, t_) for t_, h_ in be_)
+    rep.check(unc, "step", fn, "unconditional", "each pass stores to every byte", "a pass skips bytes", body.loc())
+    return True
 
 
 def _step_rule_fold(ctx, rep, fn, direction, keylen, se):
